@@ -66,6 +66,7 @@ def step (st : St) (l : String) : St × String :=
     | none => (st, "bad-op")
   | ["update"] => let s := DbState.step (S := Float) ri st.s (.update pending); (clear s, stLine s)
   | ["grow"] => let s := DbState.step (S := Float) ri st.s (.growDirect pending); (clear s, stLine s)
+  | ["replace"] => let s := DbState.step (S := Float) ri st.s (.replaceDirect pending); (clear s, stLine s)
   | "hsearch" :: q :: rest =>
     match Bytes.ofHex q, parseOpts rest with
     | some q, some o =>
